@@ -86,6 +86,55 @@ VALID_EXTRA = [
 ]
 
 
+def const_unit(rng, n):
+    """a unit of static initialisers whose values eval.c must fold: integers with up to 64 significant bits converted to
+    float/double, float/double mixes in binary operators and ?:, float<->integer casts at the precision limits, integer
+    folding at the type limits.  Only forms that are defined for every operand value drawn here."""
+    def big():
+        k = rng.choice([24, 25, 31, 32, 33, 52, 53, 54, 62, 63])
+        v = rng.getrandbits(k) | (1 << (k - 1)) | rng.choice([0, 1])
+        return v
+    def flt():
+        return rng.choice(["0.1", "0.2", "1.5", "2.25", "16777217.0", "1e10", "3.0e-5", "123456789.125", "0.333333333333",
+                           "1e-3", "7.0", "9007199254740993.0", "4294967297.0"])
+    def sflt():
+        return rng.choice(["0.1", "0.2", "1.5", "2.25", "1677.7217", "3.0e-5", "12345.125", "0.333333333333", "1e-3", "7.0"])
+    lines = []
+    for i in range(n):
+        k = rng.randrange(14)
+        a, b = big(), big()
+        if k == 0:
+            e, t = "%d" % a, rng.choice(["double", "float"])
+        elif k == 1:
+            e, t = "(double)%dL" % (a >> 1), "double"
+        elif k == 2:
+            e, t = "-%dLL" % (a >> 1), rng.choice(["double", "float"])
+        elif k == 3:
+            e, t = "%duLL + %s" % (a, flt()), "double"
+        elif k == 4:
+            e, t = "%sf + %s" % (flt(), flt()), rng.choice(["double", "float"])
+        elif k == 5:
+            e, t = "%d ? %sf : %s" % (rng.choice([0, 1]), flt(), flt()), "double"
+        elif k == 6:
+            e, t = "%s * %sf - %d" % (flt(), flt(), a % 1000), "double"
+        elif k == 7:
+            e, t = "(long)%s + (int)%sf" % (sflt(), sflt()), "long"
+        elif k == 8:
+            e, t = "%d == %s" % (rng.choice([16777217, 9007199254740993, 33554433]), rng.choice(["16777217.0f", "9007199254740993.0", "33554433.0f", "16777216.0f"])), "int"
+        elif k == 9:
+            e, t = "(float)%d < (double)%d" % (a, a), "int"
+        elif k == 10:
+            e, t = "%duLL %s %duLL" % (a, rng.choice(["+", "-", "*", "/", "%", "&", "|", "^"]), b | 1), rng.choice(["unsigned long", "int", "unsigned char"])
+        elif k == 11:
+            e, t = "(%s)%duLL >> %d" % (rng.choice(["int", "long", "short", "unsigned"]), a, rng.randrange(0, 15)), "long"
+        elif k == 12:
+            e, t = "(unsigned long)(%s * 1e6) + (unsigned)(%sf * 100)" % (sflt(), sflt()), "unsigned long"
+        else:
+            e, t = "%s / %s + (float)%d / %d" % (flt(), flt(), a % 100000, (b % 1000) + 1), rng.choice(["double", "float"])
+        lines.append("%s c%d = %s;" % (t, i, e))
+    return "\n".join(lines) + "\n"
+
+
 def preprocess(ck, src, unit, out):
     path = os.path.join(src, unit + ".c")
     r = subprocess.run(["cpp"] + CPPFLAGS + ["-I", src, path, "-o", out], stdout=subprocess.PIPE,
@@ -312,6 +361,9 @@ def run(ck):
         text, _ = progrun.gen_program(ck.seed * 104729 + i, cs, size=rng.choice([0.5, 1.0, 1.5]))
         p = tmpfile("g%d.c" % i, text)
         add("generated", "g%d.c" % i, ["-t", targ, "g%d.c" % i], {"g%d.c" % i: p})
+    for i in range(3 if ck.quick else 40):
+        p = tmpfile("k%d.c" % i, const_unit(rng, 60))
+        add("generated", "k%d.c" % i, ["-t", progrun.TARGETS[i % 3][0], "k%d.c" % i], {"k%d.c" % i: p})
     for i, text in enumerate(VALID_EXTRA):
         p = tmpfile("v%d.c" % i, text)
         add("generated", "v%d.c" % i, ["v%d.c" % i], {"v%d.c" % i: p})
